@@ -159,8 +159,8 @@ pub fn bias_cfg(prop: &str, cfg: &mut Cfg, rng: &mut Rng) {
                 cfg.set("lenmode", 1);
             }
             if rng.chance(1, 2) {
-                cfg.set("tele_seq", *rng.pick(&[60u64, 16_380, (1 << 30) - 40, (1u64 << 62) - 100_000]));
-                cfg.set("tele_mid", *rng.pick(&[60u64, 16_380, (1 << 30) - 40, (1u64 << 62) - 100_000]));
+                cfg.set("tele_seq", *rng.pick(&[60u64, 16_380, (1 << 30) - 40, (1u64 << 62) - 100_000_000]));
+                cfg.set("tele_mid", *rng.pick(&[60u64, 16_380, (1 << 30) - 40, (1u64 << 62) - 100_000_000]));
             }
         }
         "C14" | "C15" => { let k = 1 + rng.below(2); force_kind(cfg, rng, k); }
